@@ -41,11 +41,12 @@ ASSUMPTIONS = [
 MIN_COUNTERS = {
     'quick': {'programs_compared': 250, 'comparisons': 1200, 'failing_builds': 150,
               'residue_checks': 450, 'concurrent_builds': 200,
-              'concurrent_serialisations': 100, 'shared_argument_cases': 100},
+              'concurrent_serialisations': 100, 'shared_argument_cases': 100,
+              'signed_zero_cases': 100},
     'thorough': {'programs_compared': 40000, 'comparisons': 160000,
                  'failing_builds': 30000, 'residue_checks': 60000,
                  'concurrent_builds': 40000, 'concurrent_serialisations': 1500,
-                 'shared_argument_cases': 20000},
+                 'shared_argument_cases': 20000, 'signed_zero_cases': 20000},
 }
 
 KINDS = ['c01', 'c01', 'plain', 'mc', 'wf', 'variants', 'c01', 'mc']
@@ -69,7 +70,7 @@ def plan(tier, seed):
                            env={'PYTHONHASHSEED': 'random'}, **base))
         shards.append(dict(name=f'fail{g}', mode='nrt', kind='fail',
                            env={'PYTHONHASHSEED': str(1 + g)}, **base))
-        shards.append(dict(name=f'thr{g}', mode='rt', kind='threads',
+        shards.append(dict(name=f'thr{g}', mode=['rt', 'nrt'][g % 2], kind='threads',
                            nthreads=[4, 16, 2, 8][g % 4], p_yield=[0.02, 0.1][g % 2],
                            env={'PYTHONHASHSEED': str(100 + g)}, **base))
         shards.append(dict(name=f'heavy{g}', mode=['nrt', 'rt'][g % 2], kind='heavy',
@@ -204,8 +205,12 @@ def failing_build(gg, ns, rng, seed, acc, main, where):
                       {'mode': mode, 'raised': raised, 'where': where})
         main._current_synthdef = None       # repair so that the run can go on
     acc.count('residue_checks')
-    if main._def_build_lock.acquire(blocking=False):
-        main._def_build_lock.release()
+    lock = main._def_build_lock
+    if not hasattr(lock, 'acquire'):
+        acc.violation('C20/residue/build-lock-is-not-a-lock',
+                      {'lock': repr(lock), 'where': where})
+    elif lock.acquire(blocking=False):
+        lock.release()
     else:
         acc.violation(f'C20/residue/build-lock-left-held/{cls}/{phase}',
                       {'mode': mode, 'raised': raised, 'where': where})
@@ -245,6 +250,8 @@ def run_shard(spec, acc):
                 failing_build(gg, ns, rng, seed, acc, main, 'sequential')
             if rng.random() < 0.5:
                 shared_args_case(ns, rng, acc, 'sequential')
+            if rng.random() < 0.5:
+                signed_zero_case(ns, rng, acc, 'sequential')
             out[str(i)] = build_one(gg, ns, gen(seed, i))
     elif kind == 'heavy':
         junk = heavy_use(rng)
@@ -390,6 +397,50 @@ def shared_args_case(ns, rng, acc, where):
                        'rates': lags, 'rates_object_after_first_build': repr(shared),
                        'first_build_failed': first_fails, 'with_shared': out[0],
                        'with_fresh': out[1], 'where': where})
+
+
+def signed_zero_case(ns, rng, acc, where):
+    """Two definitions whose constants / control defaults differ only in the
+    sign of a zero (equal as numbers, different as float32 bit patterns), written
+    in either order, among other builds: each keeps its own zeros."""
+    import struct
+    from vf import scgf
+    SynthDef = ns['SynthDef']
+    z = rng.choice([0.0, -0.0])
+    other = -z
+    extra = rng.choice([440.0, 0.5, 3.0])
+
+    def mk(zero):
+        src = (f"def vfz(a={zero!r}, b={extra!r}):\n"
+               f"    Out.ar(0, SinOsc.ar({extra!r} + b, {zero!r}) * a)\n")
+        d = dict(ns)
+        exec(src, d)
+        return d['vfz']
+    out = {}
+    order = [z, other] if rng.random() < 0.5 else [other, z]
+    for zero in order + [order[0]]:
+        try:
+            b = bytes(SynthDef('vfz', mk(zero)).as_bytes())
+            scgf.parse(b)               # strict: must be a complete definition
+        except Exception as e:      # noqa
+            acc.count('signed_zero_case_build_raised')
+            return
+        out.setdefault(repr(zero), []).append(b)
+    acc.count('signed_zero_cases')
+    neg = struct.pack('>f', -0.0)       # 80 00 00 00: occurs nowhere else in these defs
+    for zr, blist in out.items():
+        for b in blist:
+            # the control default of `a` and the phase constant are the only
+            # places a negative zero can come from: two of them in the -0.0
+            # definition, none in the +0.0 one
+            if b.count(neg) != (2 if zr.startswith('-') else 0):
+                acc.violation('C20/bytes-differ/sign-of-zero-taken-from-an-earlier-definition',
+                              {'zero': zr, 'order': [repr(x) for x in order], 'where': where})
+                return
+    if len(set(out[repr(order[0])])) != 1:
+        acc.violation('C20/bytes-differ/repeated-build-in-one-process',
+                      {'what': 'signed-zero definition', 'order': [repr(x) for x in order],
+                       'where': where})
 
 
 def serialise_phase(gg, seed, cfg, idx, acc, rng):
